@@ -1,5 +1,6 @@
 """System-level properties: C04 (no crash), C05 (schedule independence), C15 (stats round trip),
 C16 (exit contract / accounting), C17 (orderly early stop), C19 (views)."""
+import select, threading
 import os, re, json, shutil, signal, subprocess, time, random
 import fplib as L
 import fpgen as G
@@ -667,15 +668,27 @@ def run_c17(ck, ctx):
         env = dict(os.environ, FASTPASTA_VERIF_SCHED=str(rep + 1)) if b == L.HOOKBIN else None
         t0 = time.time()
         p = subprocess.Popen([b, big] + args, stdout=subprocess.PIPE, stderr=subprocess.PIPE, env=env)
+        errbuf = []
+        th = threading.Thread(target=lambda: errbuf.append(p.stderr.read()), daemon=True)   # drain stderr concurrently
+        th.start()
         try:
-            if k: p.stdout.read(k)
+            got, tend = 0, time.time() + BOUND       # read up to k bytes of stdout, never block for ever
+            while got < k and time.time() < tend:
+                r, _, _ = select.select([p.stdout], [], [], 0.5)
+                if r:
+                    chunk = os.read(p.stdout.fileno(), min(65536, k - got))
+                    if not chunk: break
+                    got += len(chunk)
             p.stdout.close()
         except Exception: pass
         ck.case(('closed_stdout', rep))
         try:
-            err = p.stderr.read(); rc = p.wait(timeout=BOUND)
+            rc = p.wait(timeout=BOUND)
         except subprocess.TimeoutExpired:
-            p.kill(); ck.violation('hang', {'what': 'stdout closed: the process did not end', 'args': args, 'after_bytes': k}); continue
+            p.kill(); p.wait()
+            ck.violation('hang', {'what': 'stdout closed: the process did not end within %.0f s' % BOUND, 'args': args, 'after_bytes': k}); continue
+        th.join(5)
+        err = errbuf[0] if errbuf else b''
         errs = L.ANSI.sub('', err.decode('utf-8', 'replace'))
         ck.count('stop_closed_stdout')
         if 'panicked' in errs or rc not in (0, 1):
@@ -702,7 +715,7 @@ CHECKS = {
                 theorems=['FastPasta.C17.no_deadlock', 'FastPasta.C17.step_decreases', 'FastPasta.C17.env_measure', 'FastPasta.C17.terminates_within',
                           'FastPasta.C17.orderly_stop', 'FastPasta.C17.step_inv', 'FastPasta.C17.env_inv', 'FastPasta.C17.exec_inv', 'FastPasta.C17.writer_whole_packets']),
     'C04': dict(modules=['FastPasta.Props.C04'], run=run_c04, needs_harness=False, corr='panic_model',
-                theorems=['FastPasta.C04.no_panic_nonstave', 'FastPasta.C04.no_panic_stave_valid_layers', 'FastPasta.C04.checkWord_safe', 'FastPasta.C04.checkWords_safe',
+                theorems=['FastPasta.C04.no_panic_nonstave', 'FastPasta.C04.no_panic_stave_valid_layers', 'FastPasta.C04.runValidators_safe', 'FastPasta.C04.no_panic_all_validators_nonstave', 'FastPasta.C04.checkWord_safe', 'FastPasta.C04.checkWords_safe',
                           'FastPasta.C04.payloadChecks_safe', 'FastPasta.C04.linkRun_safe', 'FastPasta.C04.processFrame_err', 'FastPasta.C04.preData_err',
                           'FastPasta.C04.scan_steps_bound', 'FastPasta.C04.scanLoop_bound', 'FastPasta.C04.loadCdp_consumes', 'FastPasta.C04.filterLoop_consumes',
                           'FastPasta.C04.alpide_zero_is_data_long', 'FastPasta.C04.alpide_ape_range']),
